@@ -15,6 +15,12 @@ CHECKS = {
         text="For every accepted instance of the schedule family (corpus procedures x all introspected scheduling ops x generated argument candidates, plus depth-2 chains) z3 decides, for ALL inputs within the stated bounds (sizes<=N, index args in a box, arbitrary real buffer contents and configuration), that original and derived procedure leave identical argument buffers and configuration outside the reported set. Program/schedule quantifiers are covered by the stated family, inputs by the solver.",
         note="Trusted: z3, the loopsym reference semantics (DESIGN App. A, validated against compiled C by C02's encoder validation), reals for floats. Bounds: sizes<=3 (quick)/4 (thorough), unroll cap, statement budget; instances exceeding them are counted as skipped.",
         design="5/C01"),
+    "C03": dict(
+        category=MC, engine="loopsym",
+        technique="bounded model checking of every front-end-accepted source (corpus + one-edit source mutants): loopsym emits every safety obligation, z3 searches for an input satisfying the program's assertions that violates one; replay by a solver-free interpreter",
+        text="Each seed and each one-edit mutant (index +-1, bound +-1, comparison flipped, window interval shifted, call arguments swapped, assertion dropped/weakened, allocation shrunk) is given to the real @proc/@instr; for every accepted text z3 decides, for all sizes<=N / index args in a box / bools, that no access leaves the view or base extent, no window interval leaves its parent, no loop has hi<lo, and every call has sizes>=1, matching shapes, satisfied assertions and non-overlapping buffer arguments.",
+        note="Rejected sources only contribute counts. Bounded unrolling with solver-computed trip-count maxima; obligations are control-only LIA+div/mod formulas.",
+        design="5/C03"),
     "C04": dict(
         category=TV, engine="loopsym",
         technique="bounded symbolic execution of the derived LoopIR; every safety obligation (bounds, window, loop range, call preconditions, shapes, aliasing, poison) posed to z3 under the original's assertions; structural scope validator; real compile attempt",
@@ -58,7 +64,7 @@ NOT_APPLICABLE = [
     ("C18", "Quantifies over CPython hash seeds and process histories; encoding it needs a model of the interpreter's dict/set implementation, not of Exo (DESIGN 6)."),
 ]
 
-PENDING = {p: 'check under construction in this round (design in DESIGN.md section 5); not claimed until its command exists' for p in ['C02','C03','C05','C06','C08','C09','C10','C11','C14','C16']}
+PENDING = {p: 'check under construction in this round (design in DESIGN.md section 5); not claimed until its command exists' for p in ['C02','C05','C06','C08','C09','C10','C11','C14','C16']}
 
 
 def main():
